@@ -140,8 +140,20 @@ pub fn run(ctx: &Ctx, rec: &mut Recorder) -> Result<(), String> {
             continue;
         }
         let mut r = Rng::derive(ctx.seed, 2121, c);
-        let data: Vec<u8> = match r.below(4) {
+        let data: Vec<u8> = match r.below(5) {
             0 => { let n = r.urange(0, 200); r.bytes(n) }
+            4 => {
+                // text-like garbage: long tokens of valid UTF-8 with multi-byte characters at every
+                // alignment (error paths that slice or truncate a token by bytes)
+                let pool: Vec<char> = "aZ9é漢😀ñ_Ω".chars().collect();
+                let mut s = String::new();
+                for _ in 0..r.urange(1, 4) {
+                    for _ in 0..r.urange(0, 3) { s.push('x'); }
+                    for _ in 0..r.urange(1, 70) { s.push(*r.pick(&pool)); }
+                    s.push_str(*r.pick(&[" ", "\n", " 1 2 ", " (s) ", " /N "]));
+                }
+                s.into_bytes()
+            }
             1 => {
                 let mut v = r.pick(&seeds).to_vec();
                 for _ in 0..r.urange(1, 6) {
